@@ -162,22 +162,30 @@ fn defs(out: &str, name: &str) -> usize {
 }
 /// C06 + C03 on one (distribution, arrival order): -> Some(description) when violated
 fn merge_case(k: usize, order: &[usize]) -> Option<String> {
+    // the search serves C03 / C11 (every definition exactly once, unsupported items reported) and C06 (bytes independent of arrival order and
+    // of the split across files); when the check says which property it decides (VERIF_PID) only that property's comparisons are made
+    let pid = std::env::var("VERIF_PID").unwrap_or_default();
+    let (want_conserve, want_determ) = (pid != "C06", pid != "C03" && pid != "C11");
     let files = distribution(k);
     let base = match fold_mem(&files, &[0, 1, 2]) { Ok(b) => b, Err(e) => return Some(format!("generation failed: {}", e)) };
     let f2 = files.clone(); let o2 = order.to_vec();
     let got = match panic::catch_unwind(move || fold_mem(&f2, &o2)) { Ok(Ok(g)) => g, Ok(Err(e)) => return Some(format!("generation failed: {}", e)), Err(_) => return Some("panicked".into()) };
-    for (name, _, good) in CORPUS.iter() {
-        let n = defs(&got.0, name);
-        if *good && n != 1 { return Some(format!("definition {} appears {} times in the output (C03/C11: exactly once)", name, n)); }
-        if !*good && n != 0 { return Some(format!("unsupported item {} was generated", name)); }
+    if want_conserve {
+        for (name, _, good) in CORPUS.iter() {
+            let n = defs(&got.0, name);
+            if *good && n != 1 { return Some(format!("definition {} appears {} times in the output (C03/C11: exactly once)", name, n)); }
+            if !*good && n != 0 { return Some(format!("unsupported item {} was generated (C03)", name)); }
+        }
+        if got.1 != 1 { return Some(format!("{} parse errors recorded after the merge, expected exactly 1 (C03: the unsupported item must be reported, not silently omitted)", got.1)); }
+        // C03: every helper type a back end derives from a struct variant is defined exactly once (Kotlin)
+        if let Some(m) = kotlin_helpers(&files, order) { return Some(m); }
     }
-    if got.1 != 1 { return Some(format!("{} parse errors recorded after the merge, expected exactly 1 (the unsupported item must be reported, not silently omitted)", got.1)); }
-    // C06: the same items split differently across files must give the same single-file output
-    let base0 = match fold_mem(&distribution(0), &[0, 1, 2]) { Ok(b) => b, Err(e) => return Some(format!("generation failed: {}", e)) };
-    if base.0 != base0.0 { return Some(format!("single-file output depends on how the items are split across files: distribution {} vs distribution 0 differ (C06)", k)); }
-    // C03: every helper type a back end derives from a struct variant is defined exactly once (Kotlin)
-    if let Some(m) = kotlin_helpers(&files, order) { return Some(m); }
-    if got.0 != base.0 { return Some(format!("output bytes differ from arrival order [0,1,2] (C06): {:?} vs {:?}", &got.0.chars().take(200).collect::<String>(), &base.0.chars().take(200).collect::<String>())); }
+    if want_determ {
+        // C06: the same items split differently across files must give the same single-file output
+        let base0 = match fold_mem(&distribution(0), &[0, 1, 2]) { Ok(b) => b, Err(e) => return Some(format!("generation failed: {}", e)) };
+        if base.0 != base0.0 { return Some(format!("single-file output depends on how the items are split across files: distribution {} vs distribution 0 differ (C06)", k)); }
+        if got.0 != base.0 { return Some(format!("output bytes differ from arrival order [0,1,2] (C06): {:?} vs {:?}", &got.0.chars().take(200).collect::<String>(), &base.0.chars().take(200).collect::<String>())); }
+    }
     None
 }
 
@@ -797,7 +805,7 @@ fn tos_case(cfgs: &[Cfg], targets: &[char], placement: usize) -> Option<String> 
     let want = expected_kept(cfgs, targets);
     match actually_kept(cfgs, targets, placement) {
         Err(e) => Some(e),
-        Ok(got) => if got != want { Some(format!("member guarded by {} is {} with --target-os {:?}, the documented rule says {}", cfgs.iter().map(|c| format!("#[cfg({})]", c.text())).collect::<Vec<_>>().join(" "), if got { "generated" } else { "dropped" }, targets, if want { "generated" } else { "dropped" })) } else { None }
+        Ok(got) => if got != want { Some(format!("(C13) member guarded by {} is {} with --target-os {:?}, the documented rule says {}", cfgs.iter().map(|c| format!("#[cfg({})]", c.text())).collect::<Vec<_>>().join(" "), if got { "generated" } else { "dropped" }, targets, if want { "generated" } else { "dropped" })) } else { None }
     }
 }
 
@@ -1091,11 +1099,14 @@ fn main() {
             // identity order repeated with fresh hash tables
             let thorough = std::env::var("VERIF_TIER").map_or(false, |t| t == "thorough");
             let id: Vec<usize> = (0..IMPORT_FILES.len()).collect();
-            if let Some(m) = imports_case(&id, 40) { report(100, &id, m); }
+            let pid_ = std::env::var("VERIF_PID").unwrap_or_default();
+            let import_lines = pid_ != "C03" && pid_ != "C11";     // import lines are C06's (determinism) business
+            if import_lines { if let Some(m) = imports_case(&id, 40) { report(100, &id, m); } }
             let mut orders = 0;
             // arrival order only matters inside one crate's accumulator: every order of the application crate's 5 files, the
             // library files before them (and, thorough tier, after them)
             for q in permutations(5) {
+                if !import_lines { break; }
                 let app: Vec<usize> = q.iter().map(|x| x + 3).collect();
                 let mut variants = vec![[vec![0, 1, 2], app.clone()].concat()];
                 if thorough { variants.push([app.clone(), vec![2, 1, 0]].concat()); variants.push([vec![1], app.clone(), vec![0, 2]].concat()); }
@@ -1145,15 +1156,17 @@ fn main() {
                 println!("input passes"); std::process::exit(0);
             }
             let mut tried = 0u64;
+            // the search serves two properties; when the check says which one it decides (VERIF_PID) only that property's cases run
+            let pid = std::env::var("VERIF_PID").unwrap_or_default();
             // C03: skip markers (case numbers 1_000_000 + k)
-            for (k, (attrs, want)) in SKIP_CASES.iter().enumerate() { for p in [0usize, 1, 3] { for (t, ts) in target_sets.iter().enumerate().take(2) {
+            for (k, (attrs, want)) in SKIP_CASES.iter().enumerate() { if pid == "C13" { break; } for p in [0usize, 1, 3] { for (t, ts) in target_sets.iter().enumerate().take(2) {
                 tried += 1;
                 match kept_with_attrs(attrs, ts, p) {
                     Err(e) => report(1_000_000 + k, t, p, e),
-                    Ok(got) => if got != *want { report(1_000_000 + k, t, p, format!("member with attributes `{}` is {}, but must be {} (skip markers: serde(skip) / typeshare(skip) in any attribute)", attrs, if got { "generated" } else { "dropped" }, if *want { "generated" } else { "dropped" })) },
+                    Ok(got) => if got != *want { report(1_000_000 + k, t, p, format!("member with attributes `{}` is {}, but must be {} (C03: skip markers serde(skip) / typeshare(skip) in any attribute)", attrs, if got { "generated" } else { "dropped" }, if *want { "generated" } else { "dropped" })) },
                 }
             } } }
-            for (i, cfgs) in all.iter().enumerate() { for (t, ts) in target_sets.iter().enumerate() {
+            for (i, cfgs) in all.iter().enumerate() { if pid == "C03" { break; } for (t, ts) in target_sets.iter().enumerate() {
                 let thorough = std::env::var("VERIF_TIER").map_or(false, |t| t == "thorough");
                 for p in 0..4 { if p > 0 && i % 7 != 0 && !thorough { continue; }   // every case at field level; every 7th (thorough: every) also at the other levels
                     tried += 1;
